@@ -259,7 +259,48 @@ fn run_faults<K: KeyT, V: ValT>(a: &Args) {
             }
         }
         w0.silent = false;
+        // fault-free control segment: the same state, operation and follow-up calls without a panic.
+        // If this one already misbehaves, whatever goes wrong after an injected panic is not the panic's doing.
+        {
+            rebase_live();
+            let live_now: i64 = (1..w0.slots.len()).filter(|&s| w0.alive(s)).map(|s| {
+                let st = w0.vstate(s).unwrap();
+                (st.main_buckets > 1) as i64 + st.split as i64
+            }).sum();
+            LIVE_BASE.fetch_sub(live_now, std::sync::atomic::Ordering::Relaxed);
+            emit(&mut out, &json!({"op":"Reset","state":si,"hm":hm,"nkeys":nkeys,"baseline":1,"prefix":prefix.len(),"prefix_ops":prefix}));
+            let snap = w0.snapshot();
+            let mut held = std::collections::BTreeSet::new();
+            for sl in snap.as_array().unwrap() {
+                for t in ["main", "old"] {
+                    if let Some(a) = sl.get(t).and_then(|x| x.as_array()) {
+                        for e in a {
+                            held.insert(e[2].as_u64().unwrap_or(0) as u32);
+                            held.insert(e[3].as_u64().unwrap_or(0) as u32);
+                        }
+                    }
+                }
+            }
+            let leaked: Vec<u32> = live_ids().into_iter().filter(|i| !held.contains(i)).collect();
+            emit(&mut out, &json!({"op":"Snap","st": snap,"leaked":leaked,"cost":{"live": live_tables()},"led":{"dd":[],"dead":[],"drop":[],"new":[]}}));
+        }
         let ev0 = w0.exec(&x);
+        emit(&mut out, &ev0);
+        {
+            let mut g2 = mk(seed.wrapping_mul(31).wrapping_add(si * 1000));
+            for _ in 0..follow {
+                let op = g2.next_op(&w0);
+                let ev = w0.exec(&op);
+                emit(&mut out, &ev);
+            }
+            for s in 1..w0.slots.len() {
+                if w0.alive(s) {
+                    let ev = w0.exec(&json!({"op":"DropMap","s":s}));
+                    emit(&mut out, &ev);
+                }
+            }
+            emit(&mut out, &json!({"op":"EndRun","live_ids": live_ids(), "live_allocs": live_tables()}));
+        }
         let c = &ev0["cost"];
         let counts = [c["h"].as_u64().unwrap_or(0), c["eq"].as_u64().unwrap_or(0), c["cl"].as_u64().unwrap_or(0), c["fn"].as_u64().unwrap_or(0)];
         drop(w0);
